@@ -69,10 +69,21 @@ def _mc(run):
         r = run.tlc_mc("MetaStackMC", cfg, label="sanity: pinned-tree defect must be rejected (%s)" % inv, expect_error=True)
         if inv + " is violated" not in r["out"]:
             raise Inconclusive("MetaStackMC sanity configuration %s was not rejected: the model is vacuous" % cfg)
+    # model -> code: TLC writes every (stream, selector) of the model with what its run forwards and records
+    import os
+    gen = os.path.join(run.work, "gen-meta")
+    os.makedirs(gen, exist_ok=True)
+    run.tlc_mc("MetaStackMC", "MetaStackMC_gen.cfg", workers=1, label="TLC enumerates the 387 (stream, selector) cases of MetaStackMC for the metadata-only driver", env=dict(VERIF_GEN_DIR=gen))
+    n = len([f for f in os.listdir(gen) if f.startswith("metacase_")])
+    if n != 387:
+        raise Inconclusive("MetaStackMC case generation wrote %d files, 387 expected" % n)
+    run.gen_meta = gen
 
 
 def check(run):
-    return syncfam.run_family(run, "C19", "sync", PFX, mc=_mc, extra=["-what", "meta"], name="sync-meta", text=_text, assumptions=ASSUME, selftests=[
+    run.build()
+    _mc(run)
+    return syncfam.run_family(run, "C19", "sync", PFX, env=dict(VERIF_GEN_DIR=run.gen_meta), extra=["-what", "meta"], name="sync-meta", text=_text, assumptions=ASSUME, selftests=[
         ("drop the first record of a decoded listing", _drop_record),
         ("swap the first two records of a decoded listing", _swap_records),
         ("add an unselected entry to the destination snapshot", _extra_entry)])
